@@ -96,6 +96,10 @@ def build(case, faults: bool):
         live, bad = case["keys"]["live"], case["keys"]["bad"]
         # child: throws when its element value is negative; the dictionary script makes bad keys negative at the throw times
         body = [{"id": "f", "op": "node", "ins": [{"arg": 0}], "out": "TS[int]", "fn": case["fn"], "log_inputs": False}]
+        if case["self_sched"] in ("every", "every_tag"):
+            # periodic child: while its element is negative it throws in the cycles fired by its own alarm too
+            body[0]["sched"] = {"every": [["s", "rel", case.get("period", 2), "a" if case["self_sched"] == "every_tag" else None]]}
+            body[0]["tags"] = ["a"]
         if faults:
             body[0]["throw"] = {"neg": True}
         subs["F"] = {"params": ["TS[int]"], "names": ["x"], "out": "TS[int]", "stmts": body, "ret": "f"}
@@ -233,6 +237,19 @@ def check(case, ctx) -> Result:
         for k in live:
             if k not in bad and g.get(k) != g0.get(k):
                 res.violations.append(Viol("independent_stream_disturbed", f"key {k} (never failing) has stream {g.get(k, [])[:6]} but {g0.get(k, [])[:6]} in the fault-free run", dict(feats, where="map_key")))
+                break
+        # every child (failing or not) is evaluated at the same times as in the fault-free run: a failing child is
+        # evaluated normally again, its timers survive its errors
+        def child_evals(t_):
+            out = {}
+            for d in t_.user_evals:
+                if d["label"] == "F.f":
+                    out.setdefault(d["gid"], []).append(d["t"])
+            return out
+        ce, ce0 = child_evals(tr), child_evals(tr0)
+        for gid in sorted(ce0):
+            if ce.get(gid) != ce0[gid]:
+                res.violations.append(Viol("failing_node_not_reevaluated", f"map child {gid} was evaluated at {ce.get(gid, [])[:14]}, in the fault-free run at {ce0[gid][:14]}", dict(feats, where="map_child")))
                 break
         throw_eval_times = sorted({t for v in thr_by_key.values() for t in v})
     ind_times = {t for t, _ in a}
